@@ -44,8 +44,11 @@ def check_point(inp, xcp, c) -> List[Dict[str, Any]]:
     with np.errstate(divide="ignore", invalid="ignore"):
         t = np.where(g < 0, (x - ub) / g, np.where(g > 0, (x - lb) / g, np.inf))
     t = np.where(g == 0, np.inf, t)
+    # (when the search ends exactly at a breakpoint — the model's slope is non-negative right behind it, or every moving
+    # variable is fixed — the variables of that breakpoint have reached their bound too)
+    at_bp = ref["where"] in ("breakpoint", "all-fixed")
     for i in range(n):
-        if t[i] <= ref["t"] * (1 - 1e-9) and g[i] != 0:
+        if (t[i] <= ref["t"] * (1 - 1e-9) or (at_bp and 0 < t[i] <= ref["t"])) and g[i] != 0:
             want = ub[i] if g[i] < 0 else lb[i]
             if xcp[i] != want:
                 bad.append({"what": "a variable that reached its bound is not pinned exactly on it", "key": "",
